@@ -474,14 +474,19 @@ class ExprMixin:
             es = [v.e for v in vals]
             return VBool(z3.And(es) if isinstance(e.op, ast.And) else z3.Or(es))
         # value-returning and/or
-        res = vals[-1]
-        for v in reversed(vals[:-1]):
-            t = truthy(v)
-            if isinstance(e.op, ast.And):
-                res = self.merge_values(t, res, v)
-            else:
-                res = self.merge_values(t, v, res)
-        return res
+        try:
+            res = vals[-1]
+            for v in reversed(vals[:-1]):
+                t = truthy(v)
+                if isinstance(e.op, ast.And):
+                    res = self.merge_values(t, res, v)
+                else:
+                    res = self.merge_values(t, v, res)
+            return res
+        except Unsupported:
+            # operands of different types: only the truth value is representable (enough for conditions)
+            es = [truthy(v) for v in vals]
+            return VBool(z3.And(es) if isinstance(e.op, ast.And) else z3.Or(es))
 
     def merge_values(self, c, a, b):
         c = z3.simplify(c)
